@@ -271,6 +271,11 @@ func (m *ScaledNumberType) GetValue() float64 {
 	if m.Scale != nil {
 		scale = float64(*m.Scale)
 	}
+	// number * 10^scale is not exact in floating point arithmetic (29 * 10^-2 = 0.29000000000000004),
+	// parsing the decimal representation returns the nearest float
+	if value, err := strconv.ParseFloat(fmt.Sprintf("%de%d", *m.Number, int(scale)), 64); err == nil {
+		return value
+	}
 	return float64(*m.Number) * math.Pow(10, scale)
 }
 
@@ -289,7 +294,14 @@ func NewScaledNumberType(value float64) *ScaledNumberType {
 		numberOfDecimals = 4
 	}
 
-	numberValue := NumberType(math.Trunc(value * math.Pow(10, float64(numberOfDecimals))))
+	// take the digits of the decimal representation, the product value * 10^decimals
+	// is not exact in floating point arithmetic (0.29 * 100 = 28.999999999999996)
+	digits := strings.Replace(strconv.FormatFloat(value, 'f', numberOfDecimals, 64), ".", "", 1)
+	number, err := strconv.ParseInt(digits, 10, 64)
+	if err != nil {
+		number = int64(math.Round(value * math.Pow(10, float64(numberOfDecimals))))
+	}
+	numberValue := NumberType(number)
 	m.Number = &numberValue
 
 	var scaleValue ScaleType
